@@ -90,6 +90,10 @@ def gen_case(r, tier):
         for _ in range(r.range(1, 5)):
             a, b = pick(r, range(ND), 2)
             c["fee_pairs"].append([str(a), str(b), r.choice(["0", "0.0025", "0.02", "0.000001", "0.5", "0.003333333333333333"])])
+    c["skim"] = []
+    if r.chance(1, 6):
+        for d in pick(r, range(ND), r.range(1, 3)):
+            c["skim"].append([str(d), r.choice(["0.1", "0.3", "0.6", "0.5", "1", "0"])])
     if r.chance(1, 4):
         c["wl"] = [r.below(NACC)]
     if r.chance(1, 5):
@@ -287,8 +291,8 @@ def coq_case(c, obs, expect=None):
         for (m, op, pool, n, a, b, cc, s, v, ok, rr, rv) in table_of(obs)) + "]"
     bal0 = "[" + "; ".join(zlist(row) for row in obs["init"]["bal"]) + "]"
     msgs = "[" + ";\n     ".join(coq_msg(st["rop"]) for st in obs["steps"]) + "]"
-    return "mkGCase %s %s %s %s\n    %s\n    %s\n    %s\n    %s\n    %s" % (
-        zlist(obs["fees"]), zlist(c["wl"]), zlist(c["exempt"]), zlist(obs["cfee"]), bal0, zlist(obs["init"]["sup"]), tbl, msgs,
+    return "mkGCase %s %s %s %s %s\n    %s\n    %s\n    %s\n    %s\n    %s" % (
+        zlist(obs["fees"]), zlist(c["wl"]), zlist(obs["skims"]), zlist(c["exempt"]), zlist(obs["cfee"]), bal0, zlist(obs["init"]["sup"]), tbl, msgs,
         zlist(expect if expect is not None else expect_of(obs)))
 
 
@@ -445,7 +449,7 @@ def oracle_selftest(cases, obs, out):
 def correspond(tier, seed, model_ok):
     out = Outcome()
     r = Rng(seed)
-    n = 150 if tier == "quick" else 2000
+    n = 150 if tier == "quick" else 1500
     cases = [gen_case(r.fork(i), tier) for i in range(n)]
     corpus = common.load_corpus(PROP)
     obs = run_cases(corpus + cases, model_ok, out, "q", selftest=True)
